@@ -181,10 +181,11 @@ class SimOracle(object):
     def note(self, p, kind, value, due, mandatory=False, src=None, handle=None, seq=0):
         n = Note(kind, value, due, mandatory, src, handle, seq)
         # several causes for one process on one instant -> the interesting class
-        for m in p.notes:
-            if not m.delivered and not m.dead and m.due == due:
-                self.cls("multi-cause-same-instant")
-                break
+        if len(p.notes) < 64:
+            for m in p.notes:
+                if not m.delivered and not m.dead and m.due == due:
+                    self.cls("multi-cause-same-instant")
+                    break
         p.notes.append(n)
         return n
 
